@@ -45,6 +45,102 @@ def flag_bit_of_cond(term):
     return None
 
 
+def field_def(rd, local, fname, use_bb):
+    """The rvalue term stored into `<local>.<fname>` that reaches block use_bb: the unique partial write to that
+    field whose block dominates use_bb (None when absent or ambiguous)."""
+    cands = []
+    for (bi, si, st) in rd.partial_writes().get(local, []):
+        if not isinstance(st, dict) or st.get("k") != "assign":
+            continue
+        pr = st["lhs"]["p"]
+        if len(pr) == 1 and isinstance(pr[0], dict) and pr[0].get("name") == fname:
+            cands.append((bi, st))
+    dom = [(bi, st) for bi, st in cands if rd.dominates(bi, use_bb)]
+    if len(dom) == 1 and len(cands) == 1:
+        return rd.term_of_rvalue(dom[0][1]["rv"])
+    return None
+
+
+def decode_cond(rd, term, truth, use_bb, depth=0):
+    """What a branch condition of the reader tests: ('bit', n, holds) -- flag bit n is set (holds) / clear;
+    ('long', holds) -- the long-form marker / the long flag count; None when not recognised."""
+    from lz import bitslice, NotBits
+    t = term
+    while t[0] in ("cast",) or (t[0] == "un" and t[1] == "Not"):
+        if t[0] == "un":
+            truth = not truth
+            t = t[2]
+        else:
+            t = t[1]
+    if depth > 4:
+        return None
+    if t[0] == "field" and isinstance(t[2], str) and len(t) > 4 and t[4] == SPEC:
+        base = strip_refs(t[1])
+        if base[0] == "var":
+            loc = base[1]
+        else:
+            locs = [l for l in rd.partial_writes() if rd.local_ty(l).endswith("AssetSpec") and not rd.local_ty(l).startswith("&")]
+            loc = locs[0] if len(locs) == 1 else None
+        if loc is None:
+            return None
+        d = field_def(rd, loc, t[2], use_bb)
+        if d is None or (d[0] == "const"):
+            return None
+        return decode_cond(rd, d, truth, use_bb, depth + 1)
+    if t[0] == "bin" and t[1] in ("Gt", "Ge", "Lt", "Le") and t[3][0] == "const":
+        # flag-count comparison: the count is 3 (short) or 7 (long)
+        k = t[3][1]
+        holds_long = {"Gt": 3 <= k < 7, "Ge": 3 < k <= 7}.get(t[1])
+        if holds_long:
+            return ("long", truth)
+        holds_short = {"Lt": 3 < k <= 7, "Le": 3 <= k < 7}.get(t[1])
+        if holds_short:
+            return ("long", not truth)
+        return None
+    if t[0] == "bin" and t[1] in ("Ne", "Eq") and t[3][0] == "const" and isinstance(t[3][1], int):
+        lhs, k = t[2], t[3][1]
+
+        def classify(x):
+            y = strip_refs(x)
+            if y[0] == "call" and "ops::Index" in y[1] and len(y[2]) > 1 and y[2][1][0] == "const":
+                return "f%d" % y[2][1][1]
+            if y[0] == "index" and y[2][0] == "const":
+                return "f%d" % y[2][1]
+            # the first byte of the record, before it is stored in the vector
+            if any(z[0] == "call" and z[1].endswith("read_u8") for z in walk(y)) and not any(z[0] == "bin" for z in walk(y)):
+                return "f0"
+            return None
+
+        def rw(x):
+            if x[0] == "bin" and x[1] == "Rem" and x[3][0] == "const" and x[3][1] > 0 and x[3][1] & (x[3][1] - 1) == 0:
+                return ("bin", "BitAnd", rw(x[2]), ("const", x[3][1] - 1, x[3][2]))
+            if x[0] == "bin":
+                return ("bin", x[1], rw(x[2]), rw(x[3])) + tuple(x[4:])
+            if x[0] == "cast":
+                return ("cast", rw(x[1])) + tuple(x[2:])
+            return x
+        try:
+            pl, c = bitslice(rw(lhs), classify)
+        except NotBits:
+            return None
+        pl = [(s_, b_, sl, min(w, 8 - sl), dl) for (s_, b_, sl, w, dl) in pl if sl < 8]
+        if len(pl) != 1 or pl[0][3] != 1 or c != 0 or pl[0][1] != 0:
+            return None
+        src, _, sl, w, dl = pl[0]
+        if k == 0:
+            isset = (t[1] == "Ne")
+        elif k == (1 << dl):
+            isset = (t[1] == "Eq")
+        else:
+            return None
+        bit = 8 * int(src[1:]) + sl
+        holds = (isset == truth)
+        if bit == 0:
+            return ("long", holds)
+        return ("bit", bit, holds)
+    return None
+
+
 def reader_table(facts, rd):
     idx = rpo_index(rd)
     cd = control_deps(rd)
@@ -64,20 +160,29 @@ def reader_table(facts, rd):
         g = guards(rd, bi, cd)
         bit = "always"
         long_form = False
+        unknown = []
         for (a, succ, c) in g:
             ct = cond_truth(c)
             if not ct:
                 continue
-            fb = flag_bit_of_cond(ct[0])
-            if fb is not None and ct[0][0] == "bin" and ct[0][1] in ("Ne", "Eq"):
-                want = (ct[0][1] == "Ne") == ct[1]
-                if want:
-                    bit = fb
-            elif ct[0][0] == "bin" and ct[0][1] in ("Gt", "Ge") and ct[1]:
-                long_form = True
+            d = decode_cond(rd, ct[0], ct[1], a)
+            if d is None:
+                unknown.append(fmt(ct[0])[:50])
+            elif d[0] == "bit":
+                if d[2]:
+                    bit = d[1]
+            elif d[0] == "long":
+                if d[1]:
+                    long_form = True
         if t == ("const", True, "bool"):
             comp[fld] = (bit, idx.get(bi, 0))
             continue
+        if fld.startswith("use_") and t[0] == "bin":
+            # spec.use_x = <bit test> : the companion carries the bit itself
+            d = decode_cond(rd, t, True, bi)
+            if d and d[0] == "bit" and d[2]:
+                comp[fld] = (d[1], idx.get(bi, 0))
+                continue
         kind = None
         fbit = None
         for x in walk(t):
@@ -93,7 +198,8 @@ def reader_table(facts, rd):
             continue
         if fbit is not None:
             bit = fbit
-        rows.append({"field": fld, "bit": bit, "kind": kind, "order": idx.get(bi, 0), "long": long_form, "line": s["line"]})
+        rows.append({"field": fld, "bit": bit, "kind": kind, "order": idx.get(bi, 0), "long": long_form, "line": s["line"],
+                     "unknown": unknown})
     rows.sort(key=lambda r: r["order"])
     for r in rows:
         c = comp.get("use_" + r["field"])
@@ -152,7 +258,86 @@ def flag_table(facts, cf):
         bit = 8 * byte + mask.bit_length() - 1
         out[pred[1]] = (pred[0], bit, s["line"])
         order.append((pred[1], byte, mask, pred, s["line"]))
+    # second form: flags[B] (|)= u8::from(self.a) | (u8::from(self.b) << 1) | ...   (booleans packed by shifts)
+    from lz import bitslice, NotBits
+    for bi, si, s in cf.stmts():
+        if s["k"] != "assign" or s["lhs"]["p"] != ["deref"]:
+            continue
+        tgt = cf.term_of_local(s["lhs"]["l"])
+        if not (tgt[0] == "call" and "index_mut" in tgt[1] and tgt[2][1][0] == "const"):
+            continue
+        byte = tgt[2][1][1]
+        t = cf.term_of_rvalue(s["rv"])
+        atoms = {}
+
+        def classify(x):
+            y = x
+            if y[0] == "call" and y[1].endswith("::from") and len(y[2]) == 1:
+                y = y[2][0]
+            elif y[0] == "cast" and y[3] == "bool":
+                y = y[1]
+            else:
+                return None
+            pr = "flag"
+            if y[0] == "call" and y[1].endswith("is_some"):
+                pr = "is_some"
+            f = self_field(y)
+            if f is None:
+                return None
+            atoms[f] = pr
+            return f
+        try:
+            pl, c = bitslice(t, classify)
+        except NotBits:
+            continue
+        if not atoms:
+            continue
+        for (src, bias, sl, w, dl) in pl:
+            if src in atoms and sl == 0 and bias == 0 and src not in out:
+                out[src] = (atoms[src], 8 * byte + dl, s["line"])
+                order.append((src, byte, 1 << dl, (atoms[src], src), s["line"]))
     return out, order
+
+
+def fields_mentioned(body):
+    """names of `self` fields read anywhere in the body (to tell "not computed" from "computed in a form the
+    extractor does not know")"""
+    out = set()
+
+    def place(p):
+        if p["l"] == 1:
+            for e in p["p"]:
+                if isinstance(e, dict) and "f" in e and e.get("name"):
+                    out.add(e["name"])
+                    break
+    for blk in body.blocks:
+        for st in blk["stmts"]:
+            if st["k"] != "assign":
+                continue
+            rv = st["rv"]
+            for k in ("a", "b"):
+                op = rv.get(k)
+                if isinstance(op, dict):
+                    pl = op.get("c") or op.get("m")
+                    if pl:
+                        place(pl)
+            if "place" in rv:
+                place(rv["place"])
+            for f in rv.get("fields", []):
+                pl = f.get("c") or f.get("m")
+                if pl:
+                    place(pl)
+        t = blk["term"]
+        if t["k"] == "call":
+            for a in t["args"]:
+                pl = a.get("c") or a.get("m")
+                if pl:
+                    place(pl)
+        elif t["k"] == "switch":
+            pl = t["d"].get("c") or t["d"].get("m")
+            if pl:
+                place(pl)
+    return out
 
 
 def writer_table(facts, ap):
@@ -206,7 +391,7 @@ def run(facts, rep, ctx):
     for f in facts.callees(ap):
         cb = facts.bodies.get(f.get("res_id") or f.get("def_id"))
         if cb is not None and cb.local_ty(0).startswith("(std::vec::Vec<u8>") and cb.name.startswith(SPEC):
-            cf = cb
+            cf = facts.body(cb.id)
     if cf is None:
         rep.inconc(R1, "flag computation (callee of append returning (Vec<u8>, usize)) not identified")
         return
@@ -234,6 +419,9 @@ def run(facts, rep, ctx):
     for r in rrows:
         f = r["field"]
         w = wby.get(f)
+        if r.get("unknown"):
+            rep.inconc(R1, "`%s` is read under a condition that is not recognised: %s" % (f, r["unknown"][0]))
+            continue
         if r["bit"] == "always":
             if w and w["pred"] and w["pred"][0] == "always":
                 rep.ok(R1, {"field": f, "presence": "always"})
@@ -242,7 +430,10 @@ def run(facts, rep, ctx):
             continue
         ft = ftab.get(f) or ftab.get("use_" + f)
         if ft is None:
-            rep.violation(R1, cf.name, "flag-missing:" + f, "no flag bit is computed for `%s` (reader tests bit %s)" % (f, r["bit"]), "%s:%s" % (cf.file, cf.line))
+            if {f, "use_" + f} & fields_mentioned(cf):
+                rep.inconc(R1, "the flag of `%s` is computed in a form that is not recognised (reader tests bit %s)" % (f, r["bit"]))
+            else:
+                rep.violation(R1, cf.name, "flag-missing:" + f, "no flag bit is computed for `%s` (reader tests bit %s): compute_flags never reads the field" % (f, r["bit"]), "%s:%s" % (cf.file, cf.line))
             continue
         pred, bit, line = ft
         if bit == r["bit"]:
@@ -282,7 +473,7 @@ def run(facts, rep, ctx):
     extra = [k for k in ftab if not k.startswith("#") and k not in rseq and k.replace("use_", "", 1) not in rseq]
     for k in extra:
         rep.violation(R1, cf.name, "flag-extra:" + k, "a flag bit is computed for `%s`, which the reader never consumes" % k, "%s:%s" % (cf.file, cf.line))
-    form_rules(facts, rep, R2, rd, cf, ap, ftab)
+    form_rules(facts, rep, R2, rd, cf, ap, ftab, rrows)
     container_rules(facts, rep, R3)
 
 
@@ -329,7 +520,7 @@ def helper_checks(facts, rep, R1):
                 rep.violation(R1, b.name, "helper-write", "write_flag_str does not write exactly when the value is Some", "%s:%s" % (b.file, b.line))
 
 
-def form_rules(facts, rep, R2, rd, cf, ap, ftab):
+def form_rules(facts, rep, R2, rd, cf, ap, ftab, rrows=()):
     rw = "%s:%s" % (rd.file, rd.line)
     # reader: flag_count = 3 (+4 iff raw & 1): evaluate from the defs of the count variable
     cnt_defs = []
@@ -355,47 +546,153 @@ def form_rules(facts, rep, R2, rd, cf, ap, ftab):
         else:
             rep.violation(R2, rd.name, "flag-count", "reader reads 1+%s flag bytes, +%s under bit0=%s (specified 4 / 8 by bit 0)" % (base, inc, bit0), rw)
     else:
-        rep.inconc(R2, "reader flag-count variable not recognised")
+        # second form: count = if long {7} else {3}
+        cd = control_deps(rd)
+        sel = None
+        for l in range(len(rd.locals)):
+            ds = rd.defs().get(l, [])
+            if rd.local_ty(l) == "usize" and len(ds) == 2 and all(d[2] == "assign" for d in ds):
+                vals = {}
+                for d in ds:
+                    t = rd.term_of_rvalue(d[3]["rv"])
+                    if t[0] != "const":
+                        vals = None
+                        break
+                    for (a, s_, c) in guards(rd, d[0], cd):
+                        ct = cond_truth(c)
+                        dc = decode_cond(rd, ct[0], ct[1], a) if ct else None
+                        if dc and dc[0] == "long":
+                            vals[dc[1]] = t[1]
+                if vals and set(vals) == {True, False}:
+                    # it must be the byte count of the flag read
+                    used = any((callee_names(t)[1] or "").endswith("read_bytes") and any(x == ("var", l, rd.local_name(l)) for x in walk(rd.term_of_operand(t["args"][1]))) for bb, t in rd.calls())
+                    if used:
+                        sel = vals
+        if sel is None:
+            rep.inconc(R2, "reader flag-count variable not recognised")
+        elif sel == {True: 7, False: 3}:
+            rep.ok(R2, {"reader_flag_bytes": "1 + (7 if bit 0 else 3)"})
+        else:
+            rep.violation(R2, rd.name, "flag-count", "reader reads 1+%s flag bytes in the long form and 1+%s in the short form (specified 8 / 4 by bit 0)" % (sel[True], sel[False]), rw)
     # writer: resize(4) iff bytes 4,5,6 all zero ; bit 0 set iff len > 4 after the size is computed
     cfw = "%s:%s" % (cf.file, cf.line)
     cd = control_deps(cf)
-    resize = [(bb, t) for bb, t in cf.calls() if (callee_names(t)[1] or "").endswith("Vec::<T, A>::resize")]
+    from binser import poly, for_loops
+    resize = [(bb, t) for bb, t in cf.calls() if (callee_names(t)[1] or "").endswith("Vec::<T, A>::resize") or (callee_names(t)[1] or "").endswith("Vec::<T, A>::truncate")]
+    ext_bytes = set(b // 8 for (p, b, l) in [v for k, v in ftab.items() if not k.startswith("#")] if b >= 32)
+    # bytes the reader consumes extended fields from (the flag table may be incomplete when a form is not recognised)
+    ext_bytes |= set(r["bit"] // 8 for r in rrows if isinstance(r["bit"], int) and r["bit"] >= 32)
+
+    def any_nonzero_bytes(l):
+        """bool local l decided by a loop over flags[a..b] that stops at the first non-zero byte (the loop form of
+        `.iter().any(|f| *f != 0)` and of `.iter().all(|f| *f == 0)`): returns (set of byte indices, value of l when
+        every byte is zero), or None."""
+        ds = cf.defs().get(l, [])
+        vals = {}
+        for (bi, si, kind, payload) in ds:
+            if kind != "assign":
+                return None
+            t = cf.term_of_rvalue(payload["rv"])
+            if t[0] != "const" or not isinstance(t[1], bool):
+                return None
+            vals[bool(t[1])] = bi
+        if set(vals) != {True, False}:
+            return None
+        def nonzero_guarded(blk):
+            for (a, s_, c) in guards(cf, blk, cd):
+                ct = cond_truth(c)
+                if ct and ct[0][0] == "bin" and ct[0][3][:2] == ("const", 0) and ((ct[0][1] == "Ne" and ct[1]) or (ct[0][1] == "Eq" and not ct[1])):
+                    return True
+            return False
+        hit = None
+        for v, blk in vals.items():
+            # this definition is reached only past an element that is non-zero; the other one never is
+            if nonzero_guarded(blk) and not nonzero_guarded(vals[not v]):
+                hit = v
+        if hit is None:
+            return None
+        for lp in for_loops(cf):
+            if lp["kind"] != "for" or not lp.get("src"):
+                continue
+            if not (vals[hit] in lp["blocks"] or any(vals[hit] in cf.succs(b0) for b0 in lp["blocks"])):
+                continue
+            for x in walk(lp["src"]):
+                if x[0] == "agg" and x[2] and x[2].endswith("ops::Range") and all(y[0] == "const" for y in x[4]):
+                    if any(z[0] == "call" and "ops::Index" in z[1] for z in walk(lp["src"])):
+                        return set(range(x[4][0][1], x[4][1][1])), (not hit)
+        return None
+
+    short_guard = None          # (term, truth) deciding the truncation, when it is a single boolean
     if len(resize) != 1:
         rep.inconc(R2, "flag computation: short-form truncation not found")
     else:
         bb, t = resize[0]
         newlen = cf.term_of_operand(t["args"][1])
         bytes_tested = set()
+        odd = []
         for (a, s, c) in guards(cf, bb, cd):
             ct = cond_truth(c)
-            if ct and ct[1] and ct[0][0] == "bin" and ct[0][1] == "Eq" and ct[0][3] == ("const", 0, "u8"):
+            if not ct:
+                continue
+            if ct[1] and ct[0][0] == "bin" and ct[0][1] == "Eq" and ct[0][3] == ("const", 0, "u8"):
                 for y in walk(ct[0][2]):
                     if y[0] == "call" and "ops::Index" in y[1] and y[2][1][0] == "const":
                         bytes_tested.add(y[2][1][1])
-        ext_bytes = set(b // 8 for (p, b, l) in [v for k, v in ftab.items() if not k.startswith("#")] if b >= 32)
-        if newlen == ("const", 4, "usize") and bytes_tested == ext_bytes and ext_bytes:
+            elif ct[0][0] == "var" and cf.local_ty(ct[0][1]) == "bool":
+                bs = any_nonzero_bytes(ct[0][1])
+                if bs is not None and ct[1] == bs[1]:
+                    bytes_tested |= bs[0]
+                    short_guard = (ct[0], ct[1])
+                else:
+                    odd.append(fmt(ct[0])[:40])
+            else:
+                odd.append(fmt(ct[0])[:40])
+        if newlen == ("const", 4, "usize") and bytes_tested == ext_bytes and ext_bytes and not odd:
             rep.ok(R2, {"short_form": "flags truncated to 4 bytes iff bytes %s are all zero" % sorted(bytes_tested)})
+        elif odd and newlen == ("const", 4, "usize"):
+            rep.inconc(R2, "short-form truncation is decided by a condition that is not recognised: %s" % odd[0])
         else:
             rep.violation(R2, cf.name, "short-form", "flags are truncated to %s when bytes %s are zero; extended fields live in bytes %s" % (fmt(newlen), sorted(bytes_tested), sorted(ext_bytes)), cfw)
     marker = ftab.get("#long-marker")
     if marker and marker[1] == 0:
-        # must come after the size computation (count_bits loop): its block is after the loop
+        # must come after the size computation (popcount): no count_bits call is reachable from the marker block
         mbb = marker[2]
         cb = [bb for bb, t in cf.calls() if (callee_names(t)[1] or "").endswith("count_bits")]
-        idx = rpo_index(cf)
-        g_ok = False
+        # closures handed to map/sum: the adaptor call that consumes them
+        for bb, t in cf.calls():
+            for a in t["args"]:
+                ta = cf.term_of_operand(a)
+                for x in walk(ta):
+                    if x[0] == "agg" and x[1] == "closure" and x[2] in facts.bodies and any(
+                            (callee_names(t2)[1] or "").endswith("count_bits") for _, t2 in facts.bodies[x[2]].calls()):
+                        cb.append(bb)
+        after = cf.reachable_blocks(mbb)
+        g_ok = None
         for (a, s, c) in guards(cf, mbb, cd):
             ct = cond_truth(c)
-            if ct and ct[1] and ct[0][0] == "bin" and ct[0][1] == "Gt" and ct[0][3] == ("const", 4, "usize"):
+            if not ct:
+                continue
+            if ct[1] and ct[0][0] == "bin" and ct[0][1] == "Gt" and ct[0][3] == ("const", 4, "usize") and any(x[0] == "call" and x[1].endswith("::len") for x in walk(ct[0][2])):
                 g_ok = True
-        if cb and idx.get(mbb, 0) > idx.get(cb[0], 0) and g_ok:
+            elif short_guard is not None and ct[0] == short_guard[0]:
+                g_ok = (ct[1] != short_guard[1])      # marker exactly when the vector was not shortened
+            elif g_ok is None:
+                g_ok = "?"
+        if not cb:
+            rep.inconc(R2, "popcount of the flag bytes not found")
+        elif any(b0 in after for b0 in cb):
+            rep.violation(R2, cf.name, "long-marker", "the long-form marker bit 0 is set before the set bits are counted: it would be counted as a field", cfw)
+        elif g_ok is True:
             rep.ok(R2, {"long_marker": "bit 0 set iff more than 4 flag bytes, after the size is computed"})
+        elif g_ok == "?":
+            rep.inconc(R2, "long-form marker is guarded by a condition that is not recognised")
         else:
             rep.violation(R2, cf.name, "long-marker", "bit 0 is not set (only) for the long form after the size computation", cfw)
     else:
         rep.violation(R2, cf.name, "long-marker-missing", "the long-form marker bit 0 is never set", cfw)
     # size = len(flags) + 4 + 4 * popcount
     size_ok = False
+    size_bad = None
     for l in range(len(cf.locals)):
         if cf.local_ty(l) == "usize" and cf.local_name(l):
             ts = [cf.term_of_rvalue(d[3]["rv"]) for d in cf.defs().get(l, []) if d[2] == "assign"]
@@ -403,18 +700,48 @@ def form_rules(facts, rep, R2, rd, cf, ap, ftab):
             has_inc = any(any(x[0] == "bin" and x[1].startswith("Mul") and x[3] == ("const", 4, "usize") and any(y[0] == "call" and y[1].endswith("count_bits") for y in walk(x[2])) for x in walk(t)) for t in ts)
             if has_base and has_inc:
                 size_ok = True
+            elif has_base:
+                for t in ts:
+                    for x in walk(t):
+                        if x[0] == "bin" and x[1].startswith("Mul") and x[3][0] == "const" and any(y[0] == "call" and y[1].endswith("count_bits") for y in walk(x[2])):
+                            size_bad = "record size grows by %s per set bit" % x[3][1]
+            # closed form: 4 * sum(count_bits(flag)) + 4 + len(flags)
+            if len(ts) == 1:
+                pl = poly(ts[0])
+                if pl and () in pl and len(pl) == 3:
+                    lens = [m for m in pl if len(m) == 1 and m[0][0] == "call" and m[0][1].endswith("::len")]
+                    sums = [m for m in pl if len(m) == 1 and m[0][0] == "call" and m[0][1].rsplit("::", 1)[-1] == "sum"]
+                    if lens and sums:
+                        counts = any(x[0] == "agg" and x[1] == "closure" and x[2] in facts.bodies and any(
+                            (callee_names(t2)[1] or "").endswith("count_bits") for _, t2 in facts.bodies[x[2]].calls()) for x in walk(cf.term_of_local(l)))
+                        if counts:
+                            if (pl[()], pl[lens[0]], pl[sums[0]]) == (4, 1, 4):
+                                size_ok = True
+                            else:
+                                size_bad = "record size is %d + %d*len(flags) + %d per set bit" % (pl[()], pl[lens[0]], pl[sums[0]])
     if size_ok:
         rep.ok(R2, {"size": "len(flags) + 4 + 4 * popcount(flags)"})
+    elif size_bad:
+        rep.violation(R2, cf.name, "size", size_bad + "; specified len(flags) + 4 + 4 per set bit", cfw)
+    elif not any((callee_names(t)[1] or "").endswith("count_bits") for b0 in [cf] + [facts.bodies[i] for i in facts.bodies if facts.bodies[i].parent == cf.id] for _, t in b0.calls()):
+        rep.violation(R2, cf.name, "size", "record size is not len(flags) + 4 + 4 per set bit: the set bits are never counted", cfw)
     else:
-        rep.violation(R2, cf.name, "size", "record size is not len(flags) + 4 + 4 per set bit", cfw)
+        rep.inconc(R2, "record size computation not recognised")
     # count_bits counts all 8 bits
     cb = facts.body("mila::asset_binary::count_bits")
     if cb is not None:
         rng = [x for bb, t in cb.calls() for x in walk(cb.term_of_operand(t["args"][0])) if t["args"] and x[0] == "agg" and x[2] and x[2].endswith("ops::Range")]
-        if rng and rng[0][4][0][1] == 0 and rng[0][4][1][1] == 8:
-            rep.ok(R2, {"popcount": "bits 0..8"})
+        ones = [t for bb, t in cb.calls() if (callee_names(t)[1] or callee_names(t)[0] or "").endswith("<impl u8>::count_ones")
+                and strip_refs(cb.term_of_operand(t["args"][0]))[0] == "param"]
+        if ones and not rng and len(list(cb.calls())) == 1:
+            rep.ok(R2, {"popcount": "u8::count_ones"})
+        elif rng and rng[0][4][0][0] == "const" and rng[0][4][1][0] == "const":
+            if rng[0][4][0][1] == 0 and rng[0][4][1][1] == 8:
+                rep.ok(R2, {"popcount": "bits 0..8"})
+            else:
+                rep.violation(R2, cb.name, "popcount", "count_bits examines bits %s..%s, a flag byte has bits 0..8" % (rng[0][4][0][1], rng[0][4][1][1]), "%s:%s" % (cb.file, cb.line))
         else:
-            rep.violation(R2, cb.name, "popcount", "count_bits does not examine bits 0..8", "%s:%s" % (cb.file, cb.line))
+            rep.inconc(R2, "count_bits: neither a 0..8 bit loop nor u8::count_ones")
 
 
 def container_rules(facts, rep, R3):
